@@ -59,8 +59,19 @@ def main():
     seed = int(os.environ.get("VERIF_SEED", "0") or 0)
     mod = importlib.import_module("harness.props.%s" % pid.lower())
     if a.replay:
-        payload = json.load(open(a.replay))
-        sys.exit(mod.replay(common.unjson(payload)))
+        payload = common.unjson(json.load(open(a.replay)))
+        first = payload.get("violation") or (payload.get("first_disagreements") or [{}])[0]
+        if str(first.get("suite", "")).startswith("app:"):
+            from . import app
+            sys.exit(app.replay(payload))
+        from . import extra
+        if first.get("suite") in extra.registry() and payload.get("violation"):
+            import logging
+            logging.disable(logging.CRITICAL)
+            rc = extra.replay(payload)
+            sys.stdout.flush()
+            os._exit(rc)
+        sys.exit(mod.replay(payload))
     import logging
     logging.disable(logging.CRITICAL)
     t0 = time.time()
@@ -71,6 +82,8 @@ def main():
     suites = []
     try:
         suites = mod.run(a.tier, seed)
+        from . import app
+        suites = list(suites) + app.suites_for(pid, a.tier, seed)
     except Exception:
         s = common.Suite("harness")
         s.rule = "harness crashed"
